@@ -93,7 +93,7 @@ class Kernel(VC):
             if not pred.get("panic"): diffs.append("native panicked, predicted a return value")
         else:
             if pred.get("panic"): diffs.append("predicted panic, native returned")
-            for k in ("is_passed", "is_rejected"):
+            for k in ("is_passed", "is_rejected", "current_status"):
                 if k in pred and pred[k] != resp.get(k): diffs.append(f"{k}: native {resp.get(k)} vs predicted {pred[k]}")
         out = {"request": req, "native": resp, "predicted": pred, "reproduced": not diffs, "diffs": diffs}
         if diffs: out["why"] = "native kernel disagrees with the interpreter"
@@ -206,10 +206,12 @@ class CurrentStatus(Kernel):
         d["h"], d["eh"] = blk.get("height"), prop.get("expires").fields[0]
         d["predicted"] = {"panic": "panic" in (o1, o2, o3)}
         if o1 == "ret": d["predicted"]["is_passed"] = passed
+        if o2 == "ret": d["predicted"]["is_rejected"] = rejected
         ob.info["kernel"] = d
         if "panic" in (o1, o2, o3):
             ob.require("C04.no_panic_for_valid_thresholds", False); return
         st = I.force(ctx, st)
+        d["predicted"]["current_status"] = st.variant.lower()
         want = "Passed" if False else None
         ob.require("C04.status_passed_iff_is_passed", zeq(st.variant == "Passed", passed))
         ob.require("C04.status_rejected_iff_not_passed_and_rejected_or_expired", zeq(st.variant == "Rejected", zand(znot(passed), zor(rejected, for_expired))))
